@@ -380,7 +380,7 @@ func toIntSign(value Value) int {
 	}
 	floatValue := value.float64()
 	switch {
-	case math.IsNaN(floatValue), math.IsInf(floatValue, 0):
+	case math.IsNaN(floatValue):
 		return 0
 	case floatValue == 0:
 		return 0
